@@ -11,6 +11,7 @@ import PercevalModel.Lemmas.C02Perm
 import PercevalModel.Lemmas.C02Sess
 import PercevalModel.Lemmas.C02SessK
 import PercevalModel.Lemmas.C02More
+import PercevalModel.Lemmas.C02W10
 import Mathlib.Algebra.Star.Basic
 import Mathlib.Tactic.FieldSimp
 
@@ -930,8 +931,74 @@ example : svGet (stepperRun FockComp.gqInv ([] : List (Comp GQ)) [1]) [1, 0] = 0
   rw [pamp_single _ _ _ rfl rfl]
   simp [compsMatrix, entry, expand, expandFrom]
 
+/-! ### wave 10: circuits with PERM components, end to end -/
+
+/-- **the full matrix of a circuit of unitary blocks and PERM components is unitary** (a PERM carrying a
+genuine permutation list needs no hypothesis: its block `u[σ j, j] = 1` is always unitary) -/
+theorem stepsMatrix_unitary [CommRing R] [StarRing R] {M : ℕ} (steps : List (Step R))
+    (hfit : ∀ st ∈ steps, StepFits M st) (hU : ∀ st ∈ steps, StepUnitary st) :
+    IsUnitary (stepsMatrix M steps) :=
+  stepsMatrix_isUnitary steps hfit hU
+
+/-- **`stepper_distribution_sums_to_one` with the PERM shortcut included**: the squared moduli of the
+vector built by `Stepper.compile` as written (blocks applied slice by slice, PERMs by relabelling the
+modes), normalised by `∏s!∏t!`, over the `(M, n)` space of the input sum to one for every circuit of
+unitary blocks and genuine permutations (composition of `stepper_runS_sound_GQ`, `stepsMatrix_unitary`
+and `dist_sums_to_one_GQ`) -/
+theorem stepper_runS_distribution_sums_to_one {M : ℕ} (steps : List (Step GQ))
+    (hfit : ∀ st ∈ steps, StepFits M st) (hU : ∀ st ∈ steps, StepUnitary st)
+    (s : List ℕ) (hs : s.length = M) :
+    ((allStates M s.sum).map fun t =>
+      GQ.normSq (svGet (stepperRunS FockComp.gqInv steps s) t) /
+        ((prodFact s : ℚ) * (prodFact t : ℚ))).sum = 1 := by
+  rw [← dist_sums_to_one_GQ (stepsMatrix M steps) (stepsMatrix_isUnitary steps hfit hU) s hs]
+  apply congrArg
+  apply List.map_congr_left
+  intro t ht
+  obtain ⟨hl, hn⟩ := (mem_allStates_iff M s.sum t).1 ht
+  rw [stepper_runS_sound_GQ steps hfit s t hs hl hn.symm]
+  rfl
+
+/-- non-vacuity: a unitary block followed by a PERM on overlapping modes -/
+example : (∀ st ∈ [Step.block (⟨2, 0, exU⟩ : Comp GQ), .perm 1 [1, 0]], StepFits 3 st) ∧
+    (∀ st ∈ [Step.block (⟨2, 0, exU⟩ : Comp GQ), .perm 1 [1, 0]], StepUnitary st) := by
+  refine ⟨fun st hst => ?_, fun st hst => ?_⟩ <;>
+    simp only [List.mem_cons, List.not_mem_nil, or_false] at hst <;>
+    rcases hst with rfl | rfl
+  · show 0 + 2 ≤ 3; decide
+  · exact ⟨by decide, by decide⟩
+  · show IsUnitary exU; unfold IsUnitary; decide +kernel
+  · trivial
+
+/-- necessity of `hU`: one non-unitary block (`2` on a single mode) — the normalised sum is 4 -/
+example : ¬ StepUnitary (Step.block (⟨1, 0, fun _ _ => (⟨2, 0⟩ : GQ)⟩ : Comp GQ)) ∧
+    ((allStates 1 1).map fun t =>
+      GQ.normSq (svGet (stepperRunS FockComp.gqInv
+        [Step.block (⟨1, 0, fun _ _ => (⟨2, 0⟩ : GQ)⟩ : Comp GQ)] [1]) t) /
+        ((prodFact [1] : ℚ) * (prodFact t : ℚ))).sum = 4 := by
+  refine ⟨?_, by decide +kernel⟩
+  show ¬ IsUnitary _
+  unfold IsUnitary
+  decide +kernel
+
+/-- **the three modelled engines agree on circuits with PERM components** (`engines_agree` for the
+Stepper as written, PERM shortcut included; the SLOS side needs no length hypothesis any more): Naive
+and SLOS on the circuit's full matrix, the Stepper step by step, every input and output of the
+circuit's size, any photon numbers -/
+theorem engines_agree_S [CommRing R] {M : ℕ} (inv : List ℕ → R)
+    (hinv : ∀ v, inv v * (prodFact v : R) = 1) (steps : List (Step R))
+    (hfit : ∀ st ∈ steps, StepFits M st)
+    (s t : List ℕ) (hs : s.length = M) (ht : t.length = M) :
+    naivePamp (stepsMatrix M steps) s t = slosPamp (stepsMatrix M steps) s t ∧
+    slosPamp (stepsMatrix M steps) s t = svGet (stepperRunS inv steps s) t := by
+  rw [naivePamp_eq_pamp, slosPamp_eq_pamp_any,
+    stepper_runS_sound_total inv hinv steps hfit s t hs ht]
+  exact ⟨rfl, rfl⟩
+
 /-!
-Not proved: nothing of the design's stretch list remains open.  Wave 7 discharged `hst` of the Stepper
+Not proved: nothing of the design's stretch list remains open.  Wave 10 carried the two end-to-end compositions
+over to circuits with PERM components (`stepsMatrix_unitary`, `stepper_runS_distribution_sums_to_one` — `hU` is
+necessary, see the example —, `engines_agree_S`).  Wave 7 discharged `hst` of the Stepper
 theorems (`stepper_run_sound_total`, `stepper_runS_sound_total`; `ht` is necessary, see the example) and `ht` of
 `slosPamp_eq_pamp` (`slosPamp_eq_pamp_any`), made `evolveProbs_sum_one` an equivalence, bounded the kept mass
 (`keptMass_nonneg`, `keptMass_le_one`, `keptMass_eq_zero_iff`, `evolveProbs_ge_prob`) and composed the unitary
